@@ -143,6 +143,35 @@ pub fn run(args: &[String]) {
             case, if with_terminal { format!("{:?}+terminal@{}", kind, tc) } else { format!("{:?}", kind) }, method_name(method), x0, jnum(xend), jnum(rtol), jnum(atol), status, rec.cbs.len().saturating_sub(1), bad.is_none(), bad.unwrap_or_default()
         );
     }
+    // directed: the last sample is xend itself while the last dense segment ends at xold + h, which may differ from xend by
+    // a rounding error: the continuous solution must still answer at every reported time (and at xend)
+    {
+        std::panic::set_hook(Box::new(|_| {}));
+        let mut pairs: Vec<(f64, f64)> = vec![(0.5, 0.1), (-139.6702216726654, -4.433293975224184), (0.38770000000000004, 1.7344900000000003), (12345.678, 12399.9)];
+        for _ in 0..26 { let a = rng.range(-200.0, 200.0); let b = a + rng.range(-150.0, 150.0); pairs.push((a, b)); }
+        let mut k = 0;
+        for method in ALL_METHODS {
+            for &(x0, xend) in &pairs {
+                let p = Prob::new(Kind::Harmonic);
+                let y0 = p.y0();
+                let mut o = Options::builder().method(method).rtol(1e-6).atol(1e-9).dense_output(true).build();
+                if method == Method::RK4 { o.first_step = Some((xend - x0) / 37.0); }
+                let (status, bad) = match std::panic::catch_unwind(std::panic::AssertUnwindSafe(|| solve_ivp(&p, x0, xend, &y0, o))) {
+                    Ok(Ok(sol)) => {
+                        let mut bad = dense_invariants(&sol);
+                        if bad.is_none() && sol.status == Status::Success { if let Err(e) = sol.sol(xend) { bad = Some(format!("Success but sol(xend = {:?}) fails: {:?}", xend, e)); } }
+                        (format!("{:?}", sol.status), bad)
+                    }
+                    Ok(Err(e)) => (format!("Err({:?})", e), None),
+                    Err(_) => ("panic".to_string(), Some("solve_ivp panicked".to_string())),
+                };
+                if bad.is_some() { n_fail += 1; }
+                println!("{{\"kind\":\"dense\",\"case\":\"landing-ulp-{}\",\"problem\":\"Harmonic\",\"method\":\"{}\",\"x0\":{:?},\"xend\":{:?},\"status\":\"{}\",\"finding_key\":\"c06-last-sample-out-of-range\",\"ok\":{},\"why\":{:?}}}",
+                    k, method_name(method), x0, xend, status, bad.is_none(), bad.unwrap_or_default());
+                k += 1;
+            }
+        }
+    }
     // directed: Radau at coarse tolerances on stiff nonlinear problems, where the Newton iteration is predicted to converge
     // too slowly and the step size is reduced in mid-iteration: every delivered interval [xold, x] must be the one its
     // interpolant covers, and the dense output must reach the last reported time
